@@ -1152,7 +1152,7 @@ class Engine:
                 while isinstance(a_, PtrIte):
                     a_ = a_.a if self.branch_inline(st, a_.c) else a_.b
                     argv[i_] = a_
-            st.x['_log'] = ()
+            st.x['_log'] = (); st.x['_callee'] = name
             r = stub(self, st, argv)
             if dst: fr.env[dst] = r
             if op == 'invoke' and st.frames and st.frames[-1] is fr and fr.inv is not None:
